@@ -1,4 +1,5 @@
 import Pms.Props.C09
+import Pms.Props.C09Add
 
 #print axioms Pms.Boo.C09_qlm_def
 #print axioms Pms.Boo.C09_weighted_def
@@ -26,3 +27,8 @@ import Pms.Props.C09
 #print axioms Pms.Boo.C09_unsold
 #print axioms Pms.Boo.C09_unsold_model
 #print axioms Pms.Boo.C09_ql_bounds_model
+#print axioms Pms.Boo.C09_addition_theorem
+#print axioms Pms.Boo.C09_addition_diagonal
+#print axioms Pms.Boo.C09_ql_cosines
+#print axioms Pms.Boo.C09_reference_shells
+#print axioms Pms.Boo.C09_reference_shells_rotated
